@@ -50,13 +50,14 @@ Proof.
   destruct (dense_array v) as [xs|]; [|discriminate].
   rewrite count_extras_flat. cbn [Nat.ltb Nat.leb].
   intros H. exists xs. split; [reflexivity|].
+  revert H. generalize (existsb is_fallback (flat_items ls)) as hb. intros hb H.
   (* the loop: bindings only grow, each item is checked against its component *)
   match type of H with ?F (flat_items ls) xs [] = _ =>
     assert (G : forall ls xs acc sc, F (flat_items ls) xs acc = Ok sc ->
                 (forall z w, env_get z acc = Some w -> env_get z sc = Some w) /\ Forall2 (leaf_ok sc) ls xs);
       [| exact (proj2 (G ls xs [] sc H))] end.
   clear H ls xs sc v. induction ls as [|l ls IH]; intros xs acc sc H.
-  - simpl in H. destruct xs; [|discriminate]. injection H as <-. split; [auto | constructor].
+  - simpl in H. destruct xs; [|destruct hb; discriminate]. injection H as <-. split; [auto | constructor].
   - simpl in H. destruct xs as [|x xs]; [discriminate|].
     destruct (bind_pat f rho (leaf_pat l) (D x)) as [sc0| | |] eqn:Eb; simpl in H; try discriminate.
     destruct (env_matched_update acc sc0) as [acc'|] eqn:Eu; simpl in H; [|discriminate].
@@ -105,6 +106,7 @@ Theorem flat_array_pattern_complete fuel rho ls v xs (s : name -> val) :
 Proof.
   intros Hd F. remember (S (S fuel)) as f eqn:Ef. cbn [bind_pat bindF]. cbn [as_data rbind].
   rewrite Hd, count_extras_flat. cbn [Nat.ltb Nat.leb].
+  generalize (existsb is_fallback (flat_items ls)) as hb. intros hb.
   match goal with |- exists sc, ?GO (flat_items ls) xs [] = Ok sc =>
     assert (G : forall ls xs acc, Forall2 (leaf_rebuilds s) ls xs ->
                 (forall z w, env_get z acc = Some w -> w = D (s z)) ->
@@ -163,6 +165,7 @@ Proof.
   destruct (dense_array v) as [xs|]; [|discriminate].
   rewrite count_extras_rest. change (1 <? 1)%nat with false. cbv iota.
   intros H. exists xs.
+  revert H. generalize (existsb is_fallback (flat_items pre ++ PExtra (Some r) :: flat_items suf)) as hb. intros hb H.
   match type of H with ?GO _ xs [] = _ =>
     assert (G : forall ls xs acc sc, GO (flat_items ls) xs acc = Ok sc ->
                 (forall z w, env_get z acc = Some w -> env_get z sc = Some w) /\ Forall2 (leaf_ok sc) ls xs);
@@ -173,7 +176,7 @@ Proof.
        [| destruct (G2 pre xs [] sc H) as (_ & a & m & b & E & Fa & Fb & Hr); exists a, m, b; repeat split; assumption]] end.
   - (* the loop over names, _ and literals *)
     clear H pre suf xs sc v. induction ls as [|l ls IH]; intros xs acc sc H.
-    + simpl in H. destruct xs; [|discriminate]. injection H as <-. split; [auto | constructor].
+    + simpl in H. destruct xs; [|destruct hb; discriminate]. injection H as <-. split; [auto | constructor].
     + simpl in H. destruct xs as [|x xs]; [discriminate|].
       destruct (bind_pat f rho (leaf_pat l) (D x)) as [sc0| | |] eqn:Eb; simpl in H; try discriminate.
       destruct (env_matched_update acc sc0) as [acc'|] eqn:Eu; simpl in H; [|discriminate].
